@@ -337,3 +337,144 @@ Proof.
   intros H Hne Q1 Q2. cbn [split_line]. rewrite sow_is_split by assumption.
   apply split_ws_padded; assumption.
 Qed.
+
+(* ======================================================================================= *)
+(* the column sniffer (inspect_data_section)                                               *)
+(* ======================================================================================= *)
+(* lines the data loops skip: blank, or comment *)
+Definition is_skip (raw : list N) : bool :=
+  match strip raw with [] => true | _ => startswith [ch_hash] (strip raw) end.
+Definition dcount (d : dlm) (subs : list rsub) (raw : list N) : nat :=
+  List.length (split_line d (apply_subs subs (strip raw))).
+Definition dhyph (raw : list N) : bool := in_str ch_minus (strip raw).
+
+Lemma is_skip_cases raw : is_skip raw = true <-> strip raw = [] \/ startswith [ch_hash] (strip raw) = true.
+Proof.
+  unfold is_skip. destruct (strip raw) as [|ch r]; split; auto.
+  intros [H|H]; [discriminate|exact H].
+Qed.
+
+Lemma is_skip_streq x y : streq x y -> is_skip x = is_skip y.
+Proof. unfold streq, is_skip. intros ->. reflexivity. Qed.
+
+Lemma is_skip_toks d subs x : is_skip x = true -> toks d subs x = [].
+Proof. intros H. apply is_skip_cases in H as [H|H]; [apply toks_blank|apply toks_comment]; exact H. Qed.
+
+Lemma is_skip_np x : is_skip x = true -> np_toks x = [].
+Proof. intros H. apply is_skip_cases in H as [H|H]; [apply np_toks_blank|apply np_toks_comment]; exact H. Qed.
+
+(* one step of the loop; reaching the last line of the section and running off its end
+   give the same result *)
+Lemma inspect_loop_step d raw rest i subs hyph counts :
+  inspect_loop d (raw :: rest) i subs hyph counts =
+  if is_skip raw then inspect_loop d rest (S i) subs hyph counts
+  else
+    let hyph' := if dhyph raw then S hyph else hyph in
+    let counts' := dcount d subs raw :: counts in
+    if Nat.leb 20 i then (hyph', rev counts') else inspect_loop d rest (S i) subs hyph' counts'.
+Proof.
+  cbn [inspect_loop]. unfold is_skip, dhyph, dcount. destruct (strip raw) as [|ch r]; [reflexivity|].
+  destruct (startswith [ch_hash] (ch :: r)); [reflexivity|]. cbv zeta.
+  destruct rest as [|raw2 rest]; [|reflexivity]. destruct (Nat.leb 20 i); reflexivity.
+Qed.
+
+Theorem inspect_loop_streq d subs : forall body body', Forall2 streq body body' ->
+  forall i hyph counts, inspect_loop d body i subs hyph counts = inspect_loop d body' i subs hyph counts.
+Proof.
+  induction 1 as [|x y l l' Hxy H IH]; intros i hyph counts; [reflexivity|].
+  rewrite !inspect_loop_step, (is_skip_streq x y Hxy). unfold dhyph, dcount. unfold streq in Hxy. rewrite Hxy.
+  destruct (is_skip y); [apply IH|]. cbv zeta. destruct (Nat.leb 20 i); [reflexivity|apply IH].
+Qed.
+
+Theorem inspect_streq d subs body body' : Forall2 streq body body' -> inspect d body subs = inspect d body' subs.
+Proof. intros H. unfold inspect. rewrite (inspect_loop_streq d subs body body' H). reflexivity. Qed.
+
+Theorem inspect_twice_streq d subs body body' : Forall2 streq body body' ->
+  inspect_twice d body subs = inspect_twice d body' subs.
+Proof.
+  intros H. unfold inspect_twice. rewrite (inspect_streq d subs body body' H).
+  destruct (inspect d body' subs) as [n rec]. rewrite (inspect_streq d rec body body' H). reflexivity.
+Qed.
+
+(* a body whose counted lines all have c tokens and the same hyphen flag h *)
+Definition uniform (d : dlm) (subs : list rsub) (c : nat) (h : bool) (body : list (list N)) : Prop :=
+  Forall (fun raw => is_skip raw = true \/ (dcount d subs raw = c /\ dhyph raw = h)) body.
+Definition has_data (body : list (list N)) : bool := existsb (fun raw => negb (is_skip raw)) body.
+
+Lemma inspect_loop_uniform d subs c h : forall body i hyph counts, uniform d subs c h body ->
+  exists k, inspect_loop d body i subs hyph counts =
+            ((if h then hyph + k else hyph)%nat, rev counts ++ repeat c k) /\
+            (has_data body = true -> (0 < k)%nat).
+Proof.
+  induction body as [|raw rest IH]; intros i hyph counts H.
+  - exists 0%nat. cbn [inspect_loop repeat has_data existsb]. rewrite app_nil_r, Nat.add_0_r.
+    split; [destruct h; reflexivity|discriminate].
+  - inversion H as [|? ? Hraw Hrest]; subst. rewrite inspect_loop_step. cbn [has_data existsb].
+    destruct (is_skip raw) eqn:Es.
+    + destruct (IH (S i) hyph counts Hrest) as (k & E & Hk). exists k. split; [exact E|]. exact Hk.
+    + destruct Hraw as [F|(Hc & Hh)]; [discriminate|]. cbv zeta. rewrite Hc, Hh.
+      destruct (Nat.leb 20 i).
+      * exists 1%nat. cbn [rev repeat]. split; [|lia]. destruct h; f_equal; lia.
+      * destruct (IH (S i) (if h then S hyph else hyph) (c :: counts) Hrest) as (k & E & _).
+        exists (S k). rewrite E. cbn [rev repeat]. rewrite <- app_assoc. cbn [app]. split; [|lia].
+        destruct h; f_equal; lia.
+Qed.
+
+Lemma all_equal_repeat' c k : (0 < k)%nat -> all_equal (repeat c k) = Some c.
+Proof.
+  intros Hk. destruct k as [|k]; [lia|]. cbn [repeat all_equal].
+  assert (H : forallb (Nat.eqb c) (repeat c k) = true).
+  { apply forallb_forall. intros x Hx. apply repeat_spec in Hx. subst x. apply Nat.eqb_refl. }
+  rewrite H. reflexivity.
+Qed.
+
+(* on such a body the sniffer's answer is determined, wherever its window ends *)
+Theorem inspect_uniform d subs c h body : uniform d subs c h body -> has_data body = true ->
+  inspect d body subs = (Some c, if h then drop_hyphen_subs subs else subs).
+Proof.
+  intros U D. unfold inspect. destruct (inspect_loop_uniform d subs c h body 0%nat 0%nat [] U) as (k & E & Hk).
+  rewrite E. cbn [rev app]. specialize (Hk D). rewrite all_equal_repeat' by exact Hk. rewrite repeat_length.
+  destruct h; cbn [Nat.add].
+  - rewrite Nat.eqb_refl. reflexivity.
+  - destruct k; [lia|]. reflexivity.
+Qed.
+
+Lemma uniform_ins d subs c h body body' : ins_lines (fun x => is_skip x = true) body body' ->
+  uniform d subs c h body -> uniform d subs c h body'.
+Proof.
+  unfold uniform. induction 1 as [|j l l' Hj H IH|x l l' H IH]; intros U.
+  - constructor.
+  - constructor; [left; exact Hj|apply IH; exact U].
+  - inversion U; subst. constructor; [assumption|apply IH; assumption].
+Qed.
+
+Lemma has_data_ins body body' : ins_lines (fun x => is_skip x = true) body body' ->
+  has_data body' = has_data body.
+Proof.
+  unfold has_data. induction 1 as [|j l l' Hj H IH|x l l' H IH]; cbn [existsb]; [reflexivity| |].
+  - rewrite Hj. exact IH.
+  - rewrite IH. reflexivity.
+Qed.
+
+Theorem inspect_ins_skipped d subs c h body body' :
+  uniform d subs c h body -> has_data body = true ->
+  ins_lines (fun x => is_skip x = true) body body' ->
+  inspect d body' subs = inspect d body subs.
+Proof.
+  intros U D J. rewrite (inspect_uniform d subs c h body U D).
+  apply inspect_uniform; [apply (uniform_ins d subs c h body body' J U)|].
+  rewrite (has_data_ins body body' J). exact D.
+Qed.
+
+(* the double inspection of las.py: uniform under the initial and under the recommended subs *)
+Theorem inspect_twice_ins_skipped d subs c h c2 h2 body body' :
+  uniform d subs c h body -> uniform d (drop_hyphen_subs subs) c2 h2 body -> has_data body = true ->
+  ins_lines (fun x => is_skip x = true) body body' ->
+  inspect_twice d body' subs = inspect_twice d body subs.
+Proof.
+  intros U U2 D J. unfold inspect_twice.
+  rewrite (inspect_ins_skipped d subs c h body body' U D J), (inspect_uniform d subs c h body U D).
+  destruct h.
+  - rewrite (inspect_ins_skipped d _ c2 h2 body body' U2 D J). reflexivity.
+  - rewrite (inspect_ins_skipped d subs c false body body' U D J). reflexivity.
+Qed.
